@@ -1,6 +1,6 @@
 """C05 — slip ratio keeps spatial concentration between delivered and bed concentration."""
 import envelope as E
-from common import compare_gen, is_real_finite, rel_close
+from common import compare_gen, is_real_finite, rel_close, time_limit, CallTimeout
 
 ID = 'C05'
 LEAN_MODULES = ['Dhlldv.Props.C05']
@@ -99,8 +99,9 @@ def monitor(ctx, extended=False):
             sf, sq = ctx.rng.choice([(True, True), (True, False), (False, True), (False, False)])
             ctx.count('evaluations')
             try:
-                bad, cls = oracle(F, a, sf, sq)
-            except Exception as e:   # noqa
+                with time_limit(30):
+                    bad, cls = oracle(F, a, sf, sq)
+            except Exception as e:   # noqa  (incl. CallTimeout)
                 bad, cls = f'raised {type(e).__name__}: {e}', None
             if bad:
                 ctx.violation(bad, {'args': list(a), 'use_sf': sf, 'use_sqrtcx': sq}, key='slip')
